@@ -301,6 +301,15 @@ TARGETS = [
     dict(name="primes_generator_default", file="src/primes.rs", fn="default", nth=1, kind="function", ret="u8", structs={"Self": ["generator"]}, consts={"GENERATOR": ("generator", "u8")}),
     dict(name="primes_generator_as_u8", file="src/primes.rs", fn="as_u8", kind="method", helpers=[], readonly=True, fields=[("generator", "u8")], ret="u8"),
     dict(name="primes_generator_from", file="src/primes.rs", fn="from", kind="function", ret="u8", structs={"Self": ["generator"]}),
+    dict(name="matrix_fill_matrix_card_values", file="src/matrix_card.rs", fn="fill_matrix_card_values", kind="function", ret=("arr", "u8"), tape=True,
+         consts={"MIN_MATRIX_CARD_VALUE": ("min_matrix_card_value", "u8"), "MAX_MATRIX_CARD_VALUE": ("max_matrix_card_value", "u8")}),
+    dict(name="matrix_card_new", file="src/matrix_card.rs", fn="new", nth=0, kind="function", ret="N * N * N * list N", tape=True,
+         structs={"Self": ["digit_count", "width", "height", "data"]},
+         opt_calls={"Self::get_matrix_card_size": ("tr_matrix_get_matrix_card_size", "usize")},
+         tape_stmt_calls={"fill_matrix_card_values": "tr_matrix_fill_matrix_card_values"}),
+    dict(name="matrix_to_printer", file="src/matrix_card.rs", fn="to_printer", kind="method", helpers=[], readonly=True, fields=[("digit_count", "u8"), ("width", "u8"), ("height", "u8"), ("data", ("arr", "u8"))],
+         structs={"MatrixCardPrinter": ["chunks"]}, ret="list N * N"),
+    dict(name="matrix_printer_next", file="src/matrix_card.rs", fn="next", kind="method", helpers=[], fields=[("chunks", "chunks")], ret="option (list N)"),
     dict(name="matrix_verifier_new", file="src/matrix_card.rs", fn="new", nth=1, kind="function",
          ret="N * N * N * list N * (list N * list N) * (list N * N * N)",
          structs={"Self": ["challenge_count", "height", "width", "coordinates", "hmac", "rc4"]},
@@ -513,6 +522,7 @@ def method(t, src):
     def cty(ty):
         if ty == "hmac": return "(list N * list N)"
         if ty == "bigz": return "Z"
+        if ty == "chunks": return "(list N * N)"
         if isinstance(ty, tuple) and ty[0] == "struct": return {"Rc4": "(list N * N * N)", "Half": "(list N * N * N)", "HalfBuf": "((list N * N * N) * list N)"}[ty[1]]
         return "list N" if isinstance(ty, tuple) else ("ST" if ty == "opaque" else "N")
     tys = " ".join("(%s : %s)" % ("s_" + f, cty(ty)) for f, ty in t["fields"])
@@ -580,6 +590,7 @@ def function(t, src):
     g.structs.update(t.get("structs", {}))
     g.mut_method_calls = dict(t.get("mut_method_calls", {})); g.try_into_len = t.get("try_into_len")
     g.match_patterns = dict(t.get("match_patterns", {})); g.tape_calls = dict(t.get("tape_calls", {}))
+    g.tape_stmt_calls = dict(t.get("tape_stmt_calls", {}))
     g.struct_params = {n_: [f_ for f_, _ in fs_] for n_, fs_ in sparams.items()}
     g.param_method_calls = dict(t.get("param_method_calls", {})); g.struct_method_calls = dict(t.get("struct_method_calls", {}))
     g.method_calls = dict(t.get("method_calls", {})); g.identity_calls = set(t.get("identity", []))
@@ -593,8 +604,11 @@ def function(t, src):
         g.free_helpers[h] = ([(n_, param_type(ty_)[0]) for n_, ty_ in split_params(hs)], blk_h[0][1])
     blk = Parser(tokenize(body)).block()
     g.usize_vars = usize_variables(blk)
+    g.mut_arrays = set(muts)
     def final(tail):
-        if tail is None: raise Untranslatable("function without a result")
+        if tail is None:
+            if not muts: raise Untranslatable("function without a result")
+            tail = ("(" + ", ".join(g.env[m_][0] for m_ in muts) + ")" if len(muts) > 1 else g.env[muts[0]][0], None)   # the &mut array parameters are the result
         return ("Some (%s, v_tape)" % tail[0]) if t.get("tape") else "Some %s" % tail[0]
     text = g.stmts(blk, final)
     fuel = "(fuel : nat) " if g.uses_fuel else ""
@@ -663,7 +677,7 @@ def api(t, src):
 
 def main():
     out = ["(* GENERATED by tools/extract_steps.py from the Rust sources under /repo/src. Do not edit. *)",
-           "From Coq Require Import List NArith.", "From WS Require Import lib.Bytes lib.Res lib.Tape lib.IoScript lib.Sha1 lib.Md5 lib.Hmac lib.StepLoop Consts model.Bigint model.Srp.", "From WS Require Import model.Key model.NormalizedString.", "Definition nstr_view : Type := (list N * N)%type.",
+           "From Coq Require Import List NArith.", "From WS Require Import lib.Bytes lib.Res lib.Tape lib.IoScript lib.Sha1 lib.Md5 lib.Hmac lib.StepLoop Consts model.Bigint model.Srp model.Random.", "From WS Require Import model.Key model.NormalizedString.", "Definition nstr_view : Type := (list N * N)%type.",
            "Definition res_view {A E} (r : res A E) : option (A + E) := match r with Ok a => Some (inl a) | Err e => Some (inr e) | Panic => None end.", "From WS Require model.Vanilla model.Tbc model.Wrath model.WorldProof.", "Import ListNotations.", "Local Open Scope N_scope.", ""]
     failed = []
     gen = []          # (name, text) in TARGETS order, then sorted so that a definition follows the ones it calls
